@@ -255,6 +255,8 @@ pub fn run(prop: &'static str) -> i32 {
     let mut model_states = 0u64;
     let mut model_transitions = 0u64;
     let mut model_capped = 0u32;
+    let mut model_transitions_realised = 0u64; // distinct model transitions taken by replayed REAL executions
+    let mut model_transitions_cov_base = 0u64;
     let mut stateright_checked = 0u32;
     let mut replayed = 0u64;
     let mut replay_steps = 0u64;
@@ -309,6 +311,7 @@ pub fn run(prop: &'static str) -> i32 {
         };
         let mut traces: HashSet<u64> = HashSet::new();
         let mut n_exec = 0u64;
+        if prop == "C05" { crate::proto::cov_begin(); }
         let mut hashes: BTreeMap<String, Vec<u8>> = BTreeMap::new();
         let mut failures: Vec<(String, Vec<u8>, usize)> = Vec::new();
         let mut max_branches = 0usize;
@@ -347,9 +350,11 @@ pub fn run(prop: &'static str) -> i32 {
         crate::schedx::ROUND_ROBIN.store(false, std::sync::atomic::Ordering::Relaxed);
         crate::schedx::MAIN_LAST.store(false, std::sync::atomic::Ordering::Relaxed);
         let capped = capped_any;
+        let cov_edges = if prop == "C05" { crate::proto::cov_end() } else { 0 };
+        if let Some(ex) = &ex { if !ex.capped { model_transitions_cov_base += ex.transitions; model_transitions_realised += cov_edges.min(ex.transitions); } }
         total_exec += n_exec;
         total_traces += traces.len() as u64;
-        per_scenario.push(json!({"scenario": sc.name, "executions": n_exec, "distinct_event_traces": traces.len(), "distinct_archives": hashes.len(), "max_branch_points": max_branches, "cap_hit": capped, "failures": failures.len()}));
+        per_scenario.push(json!({"scenario": sc.name, "executions": n_exec, "distinct_event_traces": traces.len(), "distinct_archives": hashes.len(), "max_branch_points": max_branches, "cap_hit": capped, "failures": failures.len(), "model_transitions": ex.as_ref().map(|e| e.transitions), "model_transitions_realised_by_real_traces": if prop == "C05" { Some(cov_edges) } else { None }}));
         // failures
         let oversized = sc.group == "oversized";
         let mut seen_fail: HashSet<String> = HashSet::new();
@@ -396,6 +401,8 @@ pub fn run(prop: &'static str) -> i32 {
         rep.set("model_scenarios_capped", json!(model_capped));
         rep.set("model_scenarios_cross_checked_with_stateright", json!(stateright_checked));
         rep.set("model_steps_replayed", json!(replay_steps));
+        rep.set("model_transitions_realised_by_real_traces", json!({"realised": model_transitions_realised, "of": model_transitions_cov_base,
+            "meaning": "distinct (state, action) edges of the protocol model that at least one explored REAL execution took when replayed on the model; the remainder are model behaviours needing more deviations than the bound (model over-approximates the explored code schedules, never the reverse)"}));
         rep.set("distinct_event_traces", json!(total_traces));
         for d in &divergences { rep.machinery_error(format!("model/code divergence (the protocol model no longer describes the code; not a verdict): {d}")); }
     } else {
